@@ -220,6 +220,26 @@ TECH_ADD = {k: "; refinement proof of the translator-regenerated kernel text aga
 for k, v in ADD.items():
     CLAIMED[k]["text"] += v
     CLAIMED[k]["technique"] += TECH_ADD[k]
+# ---- Glue layer (DESIGN.md 10.12): the Python between the public API and the kernels, tied by proof ----
+GLUE = {
+ "C01": "the numeric core of IntervalSet.__init__ (the two sort decisions and the normaliser call) computes mk_iset",
+ "C02": "IntervalSet.union / intersect / set_diff / __getitem__ / time_span / tot_length / drop_short_intervals / drop_long_intervals / merge_close_intervals compute iset_union / iset_inter / iset_diff / the filter forms / merge_close",
+ "C03": "IntervalSet.in_interval, _restrict and _Base.restrict compute in_interval / restrict_idx and hand the re-indexed arrays to the constructor",
+ "C05": "_count (with and without a bin size), jitbin_array / _bin_average, _Base.count and _BaseTsd.bin_average compute count_binned / restrict_cnt with exact midpoints / bin_sum_cnt",
+ "C06": "_value_from (which arrays are restricted, re-indexed and passed in which order with which mode code, and the double gather of the data) and _Base.value_from compute value_from",
+ "C07": "_threshold, _dropna (all four branches incl. the 1 us widening), _BaseTsd.dropna and Tsd.threshold compute thr_go / kept_times / dropna_spec",
+ "C08": "_Base.get_slice and _Base._get_slice compute get_range / get_closest",
+}
+for k, v in GLUE.items():
+    CLAIMED[k]["text"] += (" The Python GLUE around the kernels is tied by proof as well (Properties/%sc.v): the Glue.Lang terms that tools/py2glue.py regenerates from /repo on every run satisfy, for all "
+                           "inputs: %s - both relative to the kernel models and composed with the translated kernel texts (*_with_kernel_text)." % (k, v))
+    CLAIMED[k]["note"] += (" Glue tie: trusted are the translator's routine whitelist, assumed tests (numpy backend, isinstance dispatch), declared identities (time_units='s' on rounded input, float "
+                           "literals read as ticks) and skipped-statement whitelist with def-use check - all listed per routine in coq/Gen/glue.json - and the primitive semantics of Glue/Interp.v "
+                           "(exact rationals, idealised np.sort / searchsorted); both are exercised against the real routines by harness/gluecmp.py on every run.")
+    CLAIMED[k]["technique"] += "; source-to-Coq translation of the straight-line Python glue (Glue.Lang) with refinement proofs against the hand models, extracted evaluator vs the real routine"
+for k in CLAIMED:
+    CLAIMED[k]["note"] += (" Input generators were widened along the argument-form axes (dtypes, containers, scalars, keyword/positional, units, placement, degenerate receivers, classes, histories) "
+                           "after three rounds of independently seeded defects (DESIGN.md 10.10, 10.13).")
 for k in CLAIMED:
     CLAIMED[k]["note"] += " Oracles and known-finding keys were audited against the statement clause by clause (DESIGN.md 10.9): exemptions removed, tolerances replaced by the exact rule, keys narrowed to the recorded defect."
 REASON_TODO = "C15: the translator + safety-calculus development (DESIGN.md 5 C15 / 10.6) is still being completed; not claimed until its check runs clean"
